@@ -2968,3 +2968,45 @@ impl<T: Storage> Raft<T> {
         }
     }
 }
+
+/// Read-only copy of private fields of [`Raft`] (verification hook).
+#[cfg(tikv_raft_rs_verif)]
+#[derive(Debug, Clone, PartialEq, Eq)]
+pub struct VerifRaftView {
+    /// `promotable`
+    pub promotable: bool,
+    /// `heartbeat_elapsed`
+    pub heartbeat_elapsed: usize,
+    /// `randomized_election_timeout`
+    pub randomized_election_timeout: usize,
+    /// `skip_bcast_commit`
+    pub skip_bcast_commit: bool,
+    /// `batch_append`
+    pub batch_append: bool,
+    /// `uncommitted_state.max_uncommitted_size`
+    pub max_uncommitted_size: usize,
+    /// `uncommitted_state.uncommitted_size`
+    pub uncommitted_size: usize,
+    /// `uncommitted_state.last_log_tail_index`
+    pub last_log_tail_index: u64,
+    /// `max_committed_size_per_ready`
+    pub max_committed_size_per_ready: u64,
+}
+
+#[cfg(tikv_raft_rs_verif)]
+impl<T: Storage> Raft<T> {
+    /// Returns a copy of private fields (verification hook, no behaviour).
+    pub fn verif_view(&self) -> VerifRaftView {
+        VerifRaftView {
+            promotable: self.promotable,
+            heartbeat_elapsed: self.heartbeat_elapsed,
+            randomized_election_timeout: self.randomized_election_timeout,
+            skip_bcast_commit: self.skip_bcast_commit,
+            batch_append: self.batch_append,
+            max_uncommitted_size: self.uncommitted_state.max_uncommitted_size,
+            uncommitted_size: self.uncommitted_state.uncommitted_size,
+            last_log_tail_index: self.uncommitted_state.last_log_tail_index,
+            max_committed_size_per_ready: self.max_committed_size_per_ready,
+        }
+    }
+}
